@@ -13,7 +13,7 @@ for prop in "$@"; do
     name=$(basename $d); wt=/tmp/vregrepo-$$
     base=HEAD; [ -f $d/BASE ] && base=$(cat $d/BASE)
     git -C /repo worktree add -q --detach $wt $base && git -C $wt apply $d/patch.diff || { echo "$name cannot-apply" >> $out; git -C /repo worktree remove --force $wt; continue; }
-    (cd $V && REPO=$wt VERIF_HANG_S=15 timeout 1200 ./run.sh check $prop quick > /tmp/vreg-$$.log 2>&1); c=$?
+    (cd $V && REPO=$wt VERIF_HANG_S=${SEED_HANG_S:-60} timeout 1200 ./run.sh check $prop quick > /tmp/vreg-$$.log 2>&1); c=$?
     git -C /repo worktree remove --force $wt
     echo "$name exit=$c violations=$(grep -c '^VIOLATION' /tmp/vreg-$$.log) $(grep -m1 'sig=' /tmp/vreg-$$.log | cut -c1-160)" >> $out
   done
